@@ -44,6 +44,14 @@ func (e *errDisp) VarlinkDispatch(ctx context.Context, c varlink.Call, method st
 	case "ErrValue":
 		// parameters handed to ReplyError as Go values of several shapes
 		return c.ReplyError(ctx, "t.e.V", c12GoValues()[in.Which])
+	case "Reserved":
+		// a name in the reserved namespace with parameters of every shape, incl. the library's own error structs:
+		// refused whatever the parameters are
+		if err := c.ReplyError(ctx, in.Name, c12ReservedParams()[in.Which]); err != nil {
+			*e.refusals++
+			return c.Reply(ctx, map[string]bool{"refused": true})
+		}
+		return nil
 	case "Typed":
 		switch in.Which {
 		case "InterfaceNotFound":
@@ -86,6 +94,18 @@ func c12GoValues() map[string]interface{} {
 		}{},
 		"raw-empty": json.RawMessage(`{}`),
 		"nil":       nil,
+	}
+}
+
+var c12ReservedOrder = []string{"nil", "map", "raw", "ptr-InvalidParameter", "InvalidParameter", "ptr-MethodNotFound", "ptr-MethodNotImplemented", "ptr-InterfaceNotFound", "ptr-Error", "error-value"}
+
+func c12ReservedParams() map[string]interface{} {
+	return map[string]interface{}{
+		"nil": nil, "map": map[string]string{"parameter": "p"}, "raw": json.RawMessage(`{"method":"m"}`),
+		"ptr-InvalidParameter": &varlink.InvalidParameter{Parameter: "p"}, "InvalidParameter": varlink.InvalidParameter{Parameter: "p"},
+		"ptr-MethodNotFound": &varlink.MethodNotFound{Method: "m"}, "ptr-MethodNotImplemented": &varlink.MethodNotImplemented{Method: "m"},
+		"ptr-InterfaceNotFound": &varlink.InterfaceNotFound{Interface: "i"}, "ptr-Error": &varlink.Error{Name: "org.varlink.service.InvalidParameter"},
+		"error-value": fmt.Errorf("org.varlink.service.MethodNotFound"),
 	}
 }
 
@@ -231,6 +251,19 @@ func c12Body(d c12Desc, tier string) func() {
 						got = string(*raw)
 					}
 					fail("ReplyError with a %s value: parameters %s arrived as %s", which, string(want), got)
+				}
+			}
+			// the reserved namespace is refused whatever the parameters look like
+			for _, name := range []string{"org.varlink.service.NoSuchError", "org.varlink.service.InvalidParameter", "org.varlink.service.MethodNotFound"} {
+				for _, which := range c12ReservedOrder {
+					nlog := len(c.Log)
+					before := refusals
+					var out map[string]interface{}
+					err := conn.Call(live, "t.e.Reserved", map[string]string{"name": name, "which": which}, &out)
+					st.calls++
+					if refusals != before+1 || err != nil || out["refused"] != true || len(c.Log) != nlog+1 {
+						fail("ReplyError(%q, <%s parameters>) in the reserved namespace must be refused with nothing written: refused=%v client got out=%v err=%v frame=%s", name, which, refusals != before, out, err, short(lastFrame()))
+					}
 				}
 			}
 			for _, which := range []string{"InterfaceNotFound", "MethodNotFound", "MethodNotImplemented", "InvalidParameter"} {
